@@ -41,6 +41,8 @@ const (
 	svOpaque
 	svAddrAlloc // address of a local (alloc), optionally of one of its fields
 	svAddrElem  // address of element i (field name optional)
+	svSub       // the argument re-sliced: elements [i, j)
+	svOrd       // smallest (b false) or largest (b true) of the elements whose positions are in set
 )
 
 type sv struct {
@@ -52,6 +54,8 @@ type sv struct {
 	sorted bool
 	fields map[string]*sv
 	alloc  *ssa.Alloc
+	j      int64
+	set    uint64
 }
 
 func (v *sv) String() string {
@@ -86,6 +90,13 @@ func (v *sv) String() string {
 		return "{" + strings.Join(fs, ", ") + "}"
 	case svParam:
 		return "s"
+	case svSub:
+		return fmt.Sprintf("s[%d:%d]", v.i, v.j)
+	case svOrd:
+		if v.b {
+			return fmt.Sprintf("max(positions %b)", v.set)
+		}
+		return fmt.Sprintf("min(positions %b)", v.set)
 	}
 	return "?" + v.name
 }
@@ -278,7 +289,7 @@ func (it *c02Interp) block(b *ssa.BasicBlock, st *c02State) {
 			case *ssa.IndexAddr:
 				base := it.val(st, x.X)
 				idx := it.val(st, x.Index)
-				if base.k != svParam {
+				if base.k != svParam && base.k != svSub {
 					st.env[x] = &sv{k: svOpaque, name: "addr"}
 					break
 				}
@@ -286,11 +297,47 @@ func (it *c02Interp) block(b *ssa.BasicBlock, st *c02State) {
 					it.fail("element index does not depend on the length only")
 					return
 				}
-				if idx.i < 0 || idx.i >= int64(it.n) {
+				from, to := int64(0), int64(it.n)
+				if base.k == svSub {
+					from, to = base.i, base.j
+				}
+				if idx.i < 0 || from+idx.i >= to {
 					it.outcomes = append(it.outcomes, c02Outcome{n: it.n, panics: true, path: strings.Join(st.trail, " ")})
 					return
 				}
-				st.env[x] = &sv{k: svAddrElem, i: idx.i}
+				st.env[x] = &sv{k: svAddrElem, i: from + idx.i}
+			case *ssa.Slice:
+				base := it.val(st, x.X)
+				if (base.k != svParam && base.k != svSub) || x.Max != nil {
+					st.env[x] = &sv{k: svOpaque, name: "slice"}
+					break
+				}
+				from, to := int64(0), int64(it.n)
+				if base.k == svSub {
+					from, to = base.i, base.j
+				}
+				lo, hi := int64(0), to-from
+				if x.Low != nil {
+					l := it.val(st, x.Low)
+					if l.k != svInt {
+						it.fail("slice bound does not depend on the length only")
+						return
+					}
+					lo = l.i
+				}
+				if x.High != nil {
+					h := it.val(st, x.High)
+					if h.k != svInt {
+						it.fail("slice bound does not depend on the length only")
+						return
+					}
+					hi = h.i
+				}
+				if lo < 0 || lo > hi || hi > to-from {
+					it.outcomes = append(it.outcomes, c02Outcome{n: it.n, panics: true, path: strings.Join(st.trail, " ")})
+					return
+				}
+				st.env[x] = &sv{k: svSub, i: from + lo, j: from + hi}
 			case *ssa.Field:
 				base := it.val(st, x.X)
 				fld := fieldNameOf(x.X.Type(), x.Field)
@@ -494,6 +541,10 @@ func (it *c02Interp) call(st *c02State, c *ssa.Call) bool {
 			st.env[c] = &sv{k: svInt, i: int64(it.n)}
 			return false
 		}
+		if len(args) == 1 && args[0].k == svSub && name == "builtin.len" {
+			st.env[c] = &sv{k: svInt, i: args[0].j - args[0].i}
+			return false
+		}
 	case name == "builtin.min" || name == "builtin.max":
 		allInt := len(args) > 0
 		for _, a := range args {
@@ -509,6 +560,10 @@ func (it *c02Interp) call(st *c02State, c *ssa.Call) bool {
 				}
 			}
 			st.env[c] = &sv{k: svInt, i: m}
+			return false
+		}
+		if v := it.ordStat(name == "builtin.max", args); v != nil {
+			st.env[c] = v
 			return false
 		}
 	case strings.HasPrefix(name, "slices.Sort"):
@@ -527,6 +582,52 @@ func (it *c02Interp) call(st *c02State, c *ssa.Call) bool {
 	}
 	st.env[c] = &sv{k: svOp, name: "call:" + ana.Short(name), args: args}
 	return false
+}
+
+// ordStat: min/max over whole elements. Of sorted elements it is the one at the smallest/largest
+// position; of unsorted ones it is an order statistic over a set of positions, and over all
+// positions it is the first/last element of the sorted argument whether or not a sort has run.
+func (it *c02Interp) ordStat(isMax bool, args []*sv) *sv {
+	if len(args) == 0 || it.n > 63 {
+		return nil
+	}
+	allSorted := true
+	var set uint64
+	for _, a := range args {
+		a = svStrip(a)
+		switch {
+		case a.k == svElem && a.sorted:
+		case a.k == svElem:
+			allSorted = false
+			set |= 1 << uint(a.i)
+		case a.k == svOrd && a.b == isMax:
+			allSorted = false
+			set |= a.set
+		default:
+			return nil
+		}
+	}
+	if allSorted {
+		m := svStrip(args[0]).i
+		for _, a := range args[1:] {
+			if i := svStrip(a).i; (isMax && i > m) || (!isMax && i < m) {
+				m = i
+			}
+		}
+		return &sv{k: svElem, i: m, sorted: true}
+	}
+	for _, a := range args {
+		if a = svStrip(a); a.k == svElem && a.sorted {
+			return nil // mixed: outside the domain
+		}
+	}
+	if set == (uint64(1)<<uint(it.n))-1 {
+		if isMax {
+			return &sv{k: svElem, i: int64(it.n) - 1, sorted: true}
+		}
+		return &sv{k: svElem, i: 0, sorted: true}
+	}
+	return &sv{k: svOrd, b: isMax, set: set}
 }
 
 // stripConv removes conversion wrappers of a symbolic value.
